@@ -157,7 +157,7 @@ def _perm_cases(tier, cfg, full):
 
 
 TENTRY = {"transpose": 0, "trans.ctor": 1, "trans.assign": 2, "ctrans.ctor": 3, "ctrans.assign": 4, "transpose.expr": 5, "trans.expr": 6,
-          "ctranspose": 7, "trans.add": 9, "trans.sub": 10, "trans.mul": 11, "trans.div": 12}
+          "ctranspose": 7, "trans.add": 9, "trans.sub": 10, "trans.mul": 11, "trans.div": 12, "ctranspose.expr": 13, "ctrans.expr": 14}
 
 
 def _tr_case(t, M, N, entry, cfg, name=None, **kw):
@@ -208,6 +208,8 @@ def _trans_cases(tier, cfg, full):
                     if t == "c64":
                         out.append(_tr_case(t, M, N, "ctrans.assign", cfg))
                         out.append(_tr_case(t, M, N, "ctranspose", cfg))
+                        out.append(_tr_case(t, M, N, "ctranspose.expr", cfg))
+                        out.append(_tr_case(t, M, N, "ctrans.expr", cfg))
         if not blockvar:
             for (B, J) in sorted({(3, 2), (2, 3), (3, 4), (2, 8), (2, W + 1)}):
                 if t in ("f32", "f64") or J <= 4:
